@@ -85,10 +85,14 @@ def random_cases(ctx, count):
             y = [1] * n
         else:
             y = [p[0] - p[1] + r.randint(-1, 1) for p in x]
-        # magnitude limits of the specification (SmoKkt): rbf: sum|a| <= 200 ; lin/poly: sum|a| * Kmax <= 2*10^6
+        # magnitude limits of the specification (SmoKkt): rbf: sum|a| <= 200 ; lin/poly: sum|a| * Kmax <= 10^6
+        # (nv = number of solver variables: 2n for regression)
         kmax = {"lin": 2 * span * span, "rbf": 1}.get(kern["k"], (2 * span * span + kern["c"]) ** kern["d"])
-        cmax = min(1000, (200 // n) if kern["k"] == "rbf" else 2000000 // (n * kmax))
+        nv = 2 * n if kind in ("esvr", "nusvr") else n
+        cmax = min(1000, (200 / nv) if kern["k"] == "rbf" else 1000000 / (nv * kmax))
         cs = [cc for cc in ([1, 100], [1, 10], [1, 1], [5, 1], [10, 1], [100, 1], [1000, 1]) if cc[0] / cc[1] <= cmax]
+        if not cs:
+            continue
         if kind == "csvc":
             cp, cn = r.choice(cs), r.choice(cs)
         elif kind == "nusvc":
@@ -102,6 +106,8 @@ def random_cases(ctx, count):
             c, le = r.choice(cs), r.choice([[1, 10], [1, 2], [1, 1]])
         else:
             c, nu = r.choice([cc for cc in cs if cc[0] / cc[1] <= 10]), r.choice([[1, 10], [1, 4], [1, 2]])
+        if kind == "oneclass" and nv * kmax > 1000000:
+            continue
         shr = r.random() < 0.6
         ft = "f32" if (r.random() < 0.1 and kern["k"] == "lin" and max(cp[0] / cp[1], cn[0] / cn[1], c[0] / c[1]) <= 1) else "f64"
         out.append({"kind": kind, "inp": {"x": x, "y": y, "dim": 2, "kern": kern, "cp": cp, "cn": cn, "nu": nu, "c": c, "le": le,
@@ -181,7 +187,7 @@ def run(ctx):
         "nu must be strictly feasible for nu-classification (nu*n/2 < min(#pos,#neg))",
         "a Platt calibration that returns an error is unspecified; probabilities are only required to be order-monotone in the decision value",
         "termination is not decided: a fit that reaches the iteration limit is reported as a violation of 'KKT up to the solver tolerance' only through its KKT residuals; a harness timeout is a tool error",
-        "magnitudes: sum|a| <= 200 for Gaussian kernels, sum|a|*max|K| <= 2*10^6 otherwise (32-bit TLC integers)",
+        "magnitudes: sum|a| <= 200 for Gaussian kernels, sum|a|*max|K| <= 10^6 otherwise, |y| <= 100 (32-bit TLC integers); decision values beyond 2000 are compared in 10^-3 units / by sign (saturated arithmetic)",
     ]
     return vlib.finish(ctx)
 
